@@ -95,7 +95,7 @@ func (_this *RulesEventReceiver) OnPadding() {
 }
 
 func (_this *RulesEventReceiver) OnComment(isMultiline bool, contents []byte) {
-	// TODO: Validate comment contents
+	_this.context.ValidateComment(isMultiline, contents)
 	_this.context.CurrentEntry.Rule.OnComment(&_this.context)
 	_this.receiver.OnComment(isMultiline, contents)
 }
